@@ -435,3 +435,31 @@ func Describe(v *ref.Value) string {
 func ScrambleStrict(r *Rand) *Render {
 	return &Render{R: r, Whitespace: true, Shuffle: true, Escapes: true}
 }
+
+// FoldVariants returns spellings of an object key that Go's encoding/json matches to a struct field tagged with
+// that key although they are different keys: other letter case, and the two non-ASCII letters that case-fold to
+// ASCII (U+017F long s, U+212A Kelvin sign).
+func FoldVariants(key string) []string {
+	seen := map[string]bool{key: true}
+	var out []string
+	add := func(s string) {
+		if !seen[s] {
+			seen[s] = true
+			out = append(out, s)
+		}
+	}
+	add(strings.ToUpper(key))
+	if len(key) > 0 {
+		add(strings.ToUpper(key[:1]) + key[1:])
+	}
+	if i := strings.IndexByte(key, '_'); i >= 0 && i+1 < len(key) {
+		add(key[:i+1] + strings.ToUpper(key[i+1:i+2]) + key[i+2:])
+	}
+	if i := strings.IndexByte(key, 's'); i >= 0 {
+		add(key[:i] + "ſ" + key[i+1:])
+	}
+	if i := strings.IndexByte(key, 'k'); i >= 0 {
+		add(key[:i] + "K" + key[i+1:])
+	}
+	return out
+}
